@@ -116,6 +116,7 @@ type Machine struct {
 	hostState  map[string]interface{}
 	logMsgs    []string
 	ptrOrigin  map[*Value][]Value
+	known      map[int32]bool
 	timersCreated int
 	initSteps  int64
 }
@@ -182,6 +183,11 @@ func (m *Machine) decideX(c *Term, val uint64, hasVal bool) bool {
 	if c.op == OpConst {
 		return c.k == 1
 	}
+	// literals already on the path condition are not decisions (e.g. a symbolic mode
+	// flag re-tested in every iteration of a loop over concrete data)
+	if v, ok := m.known[c.id]; ok {
+		return v
+	}
 	n := len(m.decisions)
 	if n >= m.ex.cfg.MaxDecisions {
 		m.pathOutcome("decision-limit", fmt.Sprintf("more than %d symbolic decisions on one path", m.ex.cfg.MaxDecisions))
@@ -230,6 +236,10 @@ func (m *Machine) assertSide(c *Term, side bool) {
 // addCond extends the path condition in the primary solver and mirrors it into the
 // cross-checking solver (which is only ever asked about final obligations).
 func (m *Machine) addCond(c *Term) {
+	if c.op == OpNot {
+		m.known[c.a.id] = false
+	}
+	m.known[c.id] = true
 	m.solver.Assert(c)
 	if m.xsolv != nil {
 		m.xsolv.Assert(c)
@@ -761,6 +771,7 @@ func (m *Machine) runPath(w WorkItem) (res *PathResult) {
 	m.model = w.model
 	m.ndvals = m.ndvals[:0]
 	m.pathConds = m.pathConds[:0]
+	m.known = map[int32]bool{}
 	m.steps = 0
 	m.uncaughtPanic = nil
 	m.hostState = map[string]interface{}{}
